@@ -238,8 +238,22 @@ def splice(caller_j, call_bb, callee_j, mode, cont=None, result_local=None, upva
     locals_ = j["locals"]
     L0 = len(locals_)
     B0 = len(blocks)
-    for l in callee_j["locals"]:
-        locals_.append(dict(l, inlined=True))
+    # parameters of the callee lose their names: a value keeps the name it has in the caller (`client`, not `from`)
+    param_locals = set()
+    if mode == "sync":
+        param_locals = set(range(1, callee_j.get("arg_count", 0) + 1))
+    else:
+        for b in callee_j["blocks"]:
+            for st in b.get("stmts", []):
+                if st.get("k") == "assign" and len(st.get("lhs", [])) == 1 and st["rv"].get("k") == "use":
+                    ap = st["rv"]["a"].get("m") or st["rv"]["a"].get("c")
+                    if ap and len(ap) == 2 and ap[0] == 1 and isinstance(ap[1], str) and ap[1].startswith("f:"):
+                        param_locals.add(st["lhs"][0])
+    for i, l in enumerate(callee_j["locals"]):
+        nl = dict(l, inlined=True)
+        if i in param_locals and "name" in nl:
+            nl["param_name"] = nl.pop("name")
+        locals_.append(nl)
     call_t = blocks[call_bb]["term"]
     args = call_t.get("args", [])
     lmap = lambda l: L0 + l
@@ -259,7 +273,7 @@ def splice(caller_j, call_bb, callee_j, mode, cont=None, result_local=None, upva
                         ap = st["rv"]["a"].get("m") or st["rv"]["a"].get("c")
                         if ap and ap[:2] == [1, "f:%d" % k] and len(ap) == 2 and len(st["lhs"]) == 1:
                             ty = callee_j["locals"][st["lhs"][0]]["ty"]
-            locals_.append({"ty": ty if ty is not None else callee_j["locals"][1]["ty"], "name": (src[k]["name"] if k < len(src) else None), "inlined": True})
+            locals_.append({"ty": ty if ty is not None else callee_j["locals"][1]["ty"], "param_name": (src[k]["name"] if k < len(src) else None), "inlined": True})
             upvars["f:%d" % k] = nl
             entry_stmts.append({"k": "assign", "lhs": [nl], "rv": {"k": "use", "a": a}, "sp": sp})
     else:
@@ -301,7 +315,179 @@ def splice(caller_j, call_bb, callee_j, mode, cont=None, result_local=None, upva
     call_t["t"] = E
     call_t["inlined"] = callee_j["path"]
     j.setdefault("merged_from", []).append(callee_j["path"])
+    # `helper(..)?`: a return site of the helper that is known to produce Ok (Err) continues directly on the Continue (Break) side of
+    # the caller's `?`, so that "the helper returned early" and "the caller returned early" stay correlated in the CFG
+    try:
+        res_local = (call_t.get("dest_orig") or [None])[0] if mode == "sync" else result_local
+        cont_entry = blocks[Lb]["term"]["t"]
+        _thread_try(blocks, callee_j, B0, L0, Lb, res_local, cont_entry, sp)
+    except Exception:
+        pass
     return j
+
+
+def _return_sites(callee_j):
+    """[(block, variant)] blocks of the callee whose `goto` leads to the return with a return value of a known variant
+    (the block itself assigns it, or it is the end of a straight chain of single-predecessor drop/goto blocks after the assignment)"""
+    blocks = callee_j["blocks"]
+    rets = set(i for i, b in enumerate(blocks) if (b.get("term") or {}).get("k") == "return")
+
+    def succs(t):
+        k = t.get("k")
+        if k in ("goto", "drop", "assert"):
+            return [t["t"]]
+        if k == "call":
+            return [t["t"]] if "t" in t else []
+        if k == "switch":
+            return [x[1] for x in t["ts"]] + [t["o"]]
+        if k == "yield":
+            return [t["t"]]
+        return []
+    npred = {}
+    for i, b in enumerate(blocks):
+        if b.get("cleanup"):
+            continue
+        for x in set(succs(b.get("term") or {})):
+            npred[x] = npred.get(x, 0) + 1
+    sites = []
+    for i, b in enumerate(blocks):
+        t = b.get("term") or {}
+        var = None
+        for st in b.get("stmts", []):
+            if st.get("k") == "assign" and st.get("lhs") == [0]:
+                rv = st["rv"]
+                var = rv.get("variant") if rv.get("k") == "agg" and str(rv.get("def", "")).endswith(("result::Result", "option::Option")) else None
+        start = None
+        if var in ("Ok", "Err", "Some", "None"):
+            start = i
+        elif t.get("k") == "call" and t.get("dest") == [0] and str((t.get("f") or {}).get("path", "")).endswith("FromResidual::from_residual") and "t" in t:
+            start, var = t["t"], "Err"
+            if npred.get(start, 0) != 1 or any(st.get("k") == "assign" and st.get("lhs") == [0] for st in blocks[start].get("stmts", [])):
+                continue
+        if start is None:
+            continue
+        cur = start
+        for _ in range(8):
+            tt = blocks[cur].get("term") or {}
+            if tt.get("k") == "goto" and tt.get("t") in rets:
+                sites.append((cur, var))
+                break
+            if tt.get("k") in ("goto", "drop") and "t" in tt:
+                nxt = tt["t"]
+                if npred.get(nxt, 0) != 1 or any(st.get("k") == "assign" and st.get("lhs") == [0] for st in blocks[nxt].get("stmts", [])):
+                    break
+                cur = nxt
+                continue
+            break
+    return sites
+
+
+def _thread_try(blocks, callee_j, B0, L0, Lb, res_local, cont_entry, sp):
+    if res_local is None:
+        return
+    # the continuation must lead straight to Try::branch(<result>) and a switch on its discriminant
+    b = cont_entry
+    pre = []
+    T = None
+    for _ in range(6):
+        blk = blocks[b]
+        t = blk.get("term") or {}
+        if any(st.get("k") == "assign" and st["rv"].get("k") != "use" for st in blk.get("stmts", [])):
+            return
+        pre.append(b)
+        if t.get("k") == "call" and str((t.get("f") or {}).get("path", "")).endswith("ops::try_trait::Try::branch"):
+            T = b
+            break
+        if t.get("k") == "goto":
+            b = t["t"]
+            continue
+        return
+    if T is None:
+        return
+    tc = blocks[T]["term"]
+    arg = tc["args"][0].get("m") or tc["args"][0].get("c")
+    if not arg or len(arg) != 1:
+        return
+    # the argument is the helper's result (possibly moved once)
+    a = arg[0]
+    ok_src = (a == res_local)
+    for pb in pre:
+        for st in blocks[pb].get("stmts", []):
+            if st.get("k") == "assign" and st.get("lhs") == [a] and st["rv"].get("k") == "use":
+                pl = st["rv"]["a"].get("m") or st["rv"]["a"].get("c")
+                if pl == [res_local]:
+                    ok_src = True
+    if not ok_src or len(tc.get("dest", [])) != 1 or "t" not in tc:
+        return
+    BR = tc["dest"][0]
+    D = tc["t"]
+    dblk = blocks[D]
+    dl = None
+    for st in dblk.get("stmts", []):
+        if st.get("k") == "assign" and st["rv"].get("k") == "discr" and st["rv"].get("p") == [BR] and len(st["lhs"]) == 1:
+            dl = st["lhs"][0]
+    dt = dblk.get("term") or {}
+    if dl is None or dt.get("k") != "switch" or (dt["d"].get("m") or dt["d"].get("c")) != [dl]:
+        return
+    tg = dict((v, x) for v, x in dt["ts"])
+    cont_t = tg.get(0, dt["o"] if 0 not in tg else None)
+    brk_t = tg.get(1, dt["o"] if 1 not in tg else None)
+    if cont_t is None or brk_t is None or cont_t == brk_t:
+        return
+    for (cb_, var) in _return_sites(callee_j):
+        mb = B0 + cb_
+        stmts = [{"k": "assign", "lhs": [res_local], "rv": {"k": "use", "a": {"m": [L0]}}, "sp": sp}]
+        for pb in pre:
+            stmts += [st for st in blocks[pb].get("stmts", []) if st.get("k") == "assign"]
+        if var in ("Ok", "Some"):
+            stmts.append({"k": "assign", "lhs": [BR], "rv": {"k": "agg", "ak": "adt", "def": "core::ops::control_flow::ControlFlow", "variant": "Continue",
+                                                           "fields": ["0"], "ops": [{"m": [a, "d:" + var, "f:0"]}]}, "sp": sp})
+            target = cont_t
+        else:
+            stmts.append({"k": "assign", "lhs": [BR], "rv": {"k": "agg", "ak": "adt", "def": "core::ops::control_flow::ControlFlow", "variant": "Break",
+                                                           "fields": ["0"], "ops": [{"m": [a]}]}, "sp": sp})
+            target = brk_t
+        blocks.append({"stmts": stmts, "term": {"k": "goto", "t": target}, "sp": sp, "inlined": True})
+        nb = len(blocks) - 1
+        mt = blocks[mb].get("term") or {}
+        if mt.get("k") == "goto":
+            mt["t"] = nb
+
+
+def _retype(prog, callee_j, from_crate, to_crate):
+    """copy of a function's JSON whose type indices refer to the type table of another crate (entries are added when missing)"""
+    src = prog.types[from_crate]
+    dst = prog.types[to_crate]
+    index = getattr(prog, "_tyindex_" + to_crate, None)
+    if index is None:
+        index = {}
+        for i, t in enumerate(dst):
+            index.setdefault(t["s"], i)
+        setattr(prog, "_tyindex_" + to_crate, index)
+
+    def tm(ix):
+        t = src[ix]
+        k = t["s"]
+        if k not in index:
+            dst.append(dict(t))
+            index[k] = len(dst) - 1
+        return index[k]
+
+    def walk(x):
+        if isinstance(x, dict):
+            out = {}
+            for k, v in x.items():
+                if k == "ty" and isinstance(v, int):
+                    out[k] = tm(v)
+                elif k == "targs" and isinstance(v, list):
+                    out[k] = [tm(i) if isinstance(i, int) else i for i in v]
+                else:
+                    out[k] = walk(v)
+            return out
+        if isinstance(x, list):
+            return [walk(v) for v in x]
+        return x
+    return walk(callee_j)
 
 
 # --------------------------------------------------------------------------- driver
@@ -343,10 +529,9 @@ def expand(prog, Fn, log=None):
                 if not sites:
                     break
                 F, c = sites[0]
+                callee_body_j = body.j if is_async else H.j
                 if F.crate != H.crate:
-                    all_ok = False
-                    c.term["inlined"] = "skipped"
-                    continue
+                    callee_body_j = _retype(prog, callee_body_j, H.crate, F.crate)
                 if is_async:
                     aw = awaited(F, c)
                     cont = None
@@ -364,9 +549,9 @@ def expand(prog, Fn, log=None):
                         all_ok = False
                         c.term["inlined"] = "skipped"      # future not awaited here (spawned, selected, stored)
                         continue
-                    nj = splice(F.j, c.bb, body.j, "async", cont=cont, result_local=res)
+                    nj = splice(F.j, c.bb, callee_body_j, "async", cont=cont, result_local=res)
                 else:
-                    nj = splice(F.j, c.bb, H.j, "sync")
+                    nj = splice(F.j, c.bb, callee_body_j, "sync")
                 nF = Fn(prog, F.crate, nj)
                 prog.fns[nF.key] = nF
                 prog.by_crate[F.crate][nF.path] = nF
